@@ -34,6 +34,15 @@ func WorkerEntry() {
 	if name == "" || lookup(name) == nil {
 		return
 	}
+	// Package initialisation runs on the main goroutine while it is locked to
+	// the main OS thread: every hand-off between a locked driver and the
+	// controlled goroutines would be an OS thread switch (futex), 50× slower.
+	// Serve from an ordinary goroutine instead.
+	go serveJobs()
+	select {}
+}
+
+func serveJobs() {
 	out := os.NewFile(3, "results")
 	if out == nil {
 		InternalError("worker: result pipe (fd 3) missing")
